@@ -91,6 +91,8 @@ EXN = {"AttributeError": "ExAttribute", "UnboundLocalError": "ExUnboundLocal", "
        "RuntimeError": "ExRuntime", "ValueError": "ExValue"}
 
 
+FLOAT_SPLIT_REGIONS = [0]
+
 def doc_view(doc):
     """canonical Python view of the reader's document: (regions, paragraphs) used for literals and replays"""
     import ttconv.model as m, ttconv.style_properties as s
@@ -103,6 +105,17 @@ def doc_view(doc):
             if l.units is not s.LengthType.Units.pct: raise Canon("units")
         regions.append((r.get_style(SP.WritingMode).name, o.x.value, o.y.value, e.width.value, e.height.value,
                         r.get_style(SP.DisplayAlign).name, r.get_style(SP.TextAlign).name))
+    # Region identity in the code is float equality; two settings whose geometry is equal as rationals may differ in
+    # the last bit (50 - (100 - 200/23)/2 vs 100/23) and then get two regions.  The model decides identity in Q, so the
+    # observation merges regions that agree within 1e-9 (first one wins) and counts how often that happened.
+    canon, remap = [], {}
+    for i, r in enumerate(regions):
+        for j, c in enumerate(canon):
+            if r[0] == c[0] and r[5:] == c[5:] and all(abs(Fraction(a) - Fraction(b)) <= Fraction(1, 10 ** 9) for a, b in zip(r[1:5], c[1:5])):
+                remap[i] = j; FLOAT_SPLIT_REGIONS[0] += 1; break
+        else:
+            remap[i] = len(canon); canon.append(r)
+    regions = canon
     body = doc.get_body()
     divs = list(body)
     if len(divs) != 1 or not isinstance(divs[0], m.Div): raise Canon("body shape")
@@ -110,7 +123,7 @@ def doc_view(doc):
     for p in divs[0]:
         if not isinstance(p, m.P): raise Canon("div child")
         rid = p.get_region().get_id()
-        paras.append((p.get_begin(), p.get_end(), int(rid[1:]), p))
+        paras.append((p.get_begin(), p.get_end(), remap[int(rid[1:])], p))
     return regions, paras
 
 
@@ -693,7 +706,8 @@ def main():
             first = dict(input_text=canon_err[0][0], problem=canon_err[0][1])
         run.violation("; ".join(what), dict(kind="broken-tie", theorem_file="coq/Properties/C11.v", proofs_ok=proofs_ok,
                                             correspondence="Model/VttTokenizer.v tokenize, Model/VttReader.v to_model vs ttconv.vtt.tokenizer / reader",
-                                            first_mismatch=first, mismatches=len(m_bad)), found_input=False)
+                                            first_mismatch=first, mismatches=len(m_bad),
+                                            more_mismatching_inputs=[(i if k == 'tok' else i['txt']) for k, i in m_bad[1:6]]), found_input=False)
 
     # ---- coverage -------------------------------------------------------------------------------------
     from collections import Counter
@@ -731,10 +745,11 @@ def main():
                    files=dict(grammar=len(gram_cases), mutated_and_corpus=len(mut_cases), corpus=len(corpus), corpus_skipped=corpus_skipped, writer_outputs=len(wr_cases), cue_texts=len(tok_cases)),
                    cues=ncues, setting_combinations_covered=len(combos_seen), setting_combinations_total=N_COMBOS,
                    block_histogram=dict(hist), cue_node_histogram=dict(tags), outcome_histogram=dict(out_hist),
-                   writer_failures=dict(Counter(wr_fail)),
+                   writer_failures=dict(Counter(wr_fail)), regions_split_by_float_rounding=FLOAT_SPLIT_REGIONS[0],
                    model_code_mismatches=len(m_bad), s_failures_on_code=len(s_fail),
                    s_failures_covered_by_findings={FINDINGS[k]: len(v) for k, v in known_hits.items()})
     run.assumptions += ["region geometry: the code computes in binary floating point, the model in Q; compared within 1e-9 percent; S allows 1e-6",
+                        "region identity: the code compares floats, the model rationals; regions of the code that agree within 1e-9 are merged before comparison (count in coverage.regions_split_by_float_rounding)",
                         "round(float(s)) in parse_vtt_pct is modelled as exact half-even rounding (equal below 16 significant digits); \\d as ASCII digits",
                         "files are read through io.StringIO (no newline translation), as the check feeds them",
                         "S (Spec/VttSpec.v) is my reading of WebVTT sections 4, 6, 7 restricted to what the property states; the 23-row / 40-column grid is the reader's documented convention",
